@@ -46,6 +46,13 @@ func (c *Codec) NewWriter(w io.Writer) io.WriteCloser {
 
 type reader struct{ *lz4.Reader }
 
+// WriteTo hides (*lz4.Reader).WriteTo, which fails with "lz4: unhandled state"
+// once the reader has been read from (io.Copy picks WriteTo whenever the source
+// has one). Copying through Read is always correct.
+func (r *reader) WriteTo(w io.Writer) (int64, error) {
+	return io.Copy(w, struct{ io.Reader }{r.Reader})
+}
+
 func (r *reader) Close() (err error) {
 	if z := r.Reader; z != nil {
 		r.Reader = nil
@@ -56,6 +63,13 @@ func (r *reader) Close() (err error) {
 }
 
 type writer struct{ *lz4.Writer }
+
+// ReadFrom hides (*lz4.Writer).ReadFrom, which fails with "lz4: unhandled
+// state" once the writer has been written to (io.Copy picks ReadFrom whenever
+// the destination has one). Copying through Write is always correct.
+func (w *writer) ReadFrom(r io.Reader) (int64, error) {
+	return io.Copy(struct{ io.Writer }{w.Writer}, r)
+}
 
 func (w *writer) Close() (err error) {
 	if z := w.Writer; z != nil {
